@@ -104,6 +104,16 @@ var cmpGroups = []cmpGroup{
 	{"cmpSkeletonBSI32", "BitSliceIndexing", []string{"bsi.go"}},
 }
 
+// sharing skeletons: every call of the copy-on-write bookkeeping primitives (with its printed arguments), every clone, and every
+// assignment to a copy-on-write flag, per package, as "<function>: <call or assignment>"
+var cowCallees = map[string]bool{"appendContainer": true, "appendWithoutCopy": true, "appendCopy": true, "appendWithoutCopyMany": true,
+	"appendCopyMany": true, "appendCopiesUntil": true, "appendCopiesAfter": true, "insertNewKeyValueAt": true,
+	"replaceKeyAndContainerAtIndex": true, "setContainerAtIndex": true, "setNeedsCopyOnWrite": true, "markAllAsNeedingCopyOnWrite": true,
+	"getWritableContainerAtIndex": true, "getFastContainerAtIndex": true, "getUnionedWritableContainer": true,
+	"copyOrSourceContainerAt": true, "cloneCopyOnWriteContainers": true, "clone": true, "Clone": true, "CloneCopyOnWriteContainers": true}
+
+var cowGroups = []struct{ lean, pkg string }{{"cowSkeleton", ""}, {"cowSkeleton64", "roaring64"}, {"cowSkeletonBSI32", "BitSliceIndexing"}}
+
 var skeletons = []item{
 	{"", "ParHeapOr", "skeletonParHeapOr"},
 	{"", "ParAnd", "skeletonParAnd"},
@@ -238,6 +248,20 @@ func main() {
 	fmt.Fprintln(&out, "/-! ### comparison skeletons: every comparison against an integer constant of absolute value >= 2, per group of source files -/")
 	for _, g := range cmpGroups {
 		ev := cmpSkeleton(infos[g.pkg], g.files)
+		fmt.Fprintf(&out, "def %s : List String := [\n", g.lean)
+		for i, e := range ev {
+			sep := ","
+			if i == len(ev)-1 {
+				sep = ""
+			}
+			fmt.Fprintf(&out, "  %q%s\n", e, sep)
+		}
+		fmt.Fprintln(&out, "]")
+	}
+	fmt.Fprintln(&out, "")
+	fmt.Fprintln(&out, "/-! ### sharing skeletons: calls of the copy-on-write primitives, clones, and assignments to copy-on-write flags -/")
+	for _, g := range cowGroups {
+		ev := cowSkeleton(infos[g.pkg])
 		fmt.Fprintf(&out, "def %s : List String := [\n", g.lean)
 		for i, e := range ev {
 			sep := ","
@@ -890,6 +914,75 @@ func cmpSkeleton(pi *pkgInfo, files []string) []string {
 					ev = append(ev, fmt.Sprintf("%s: %s %s %s", name, show(be.X), be.Op, rv))
 				case lc && !rc:
 					ev = append(ev, fmt.Sprintf("%s: %s %s %s", name, show(be.Y), flip[be.Op], lv))
+				}
+				return true
+			})
+		}
+	}
+	return ev
+}
+
+// sharing skeleton of one package: all non-test, non-hook files in name order, functions in source order
+func cowSkeleton(pi *pkgInfo) []string {
+	var ev []string
+	type fileDecls struct {
+		name string
+		f    *ast.File
+	}
+	var fs []fileDecls
+	for _, f := range pi.p.Syntax {
+		fn := pi.p.Fset.Position(f.Pos()).Filename
+		base := fn[strings.LastIndex(fn, "/")+1:]
+		if strings.HasSuffix(base, "_test.go") || strings.HasPrefix(base, "verif_hooks") {
+			continue
+		}
+		fs = append(fs, fileDecls{base, f})
+	}
+	sort.Slice(fs, func(i, j int) bool { return fs[i].name < fs[j].name })
+	show := func(e ast.Node) string {
+		var b bytes.Buffer
+		printer.Fprint(&b, pi.p.Fset, e)
+		return strings.Join(strings.Fields(b.String()), " ")
+	}
+	for _, fd := range fs {
+		for _, d := range fd.f.Decls {
+			fn, ok := d.(*ast.FuncDecl)
+			if !ok || fn.Body == nil {
+				continue
+			}
+			name := fn.Name.Name
+			if fn.Recv != nil && len(fn.Recv.List) == 1 {
+				t := fn.Recv.List[0].Type
+				if st, ok := t.(*ast.StarExpr); ok {
+					t = st.X
+				}
+				if id, ok := t.(*ast.Ident); ok {
+					name = id.Name + "." + name
+				}
+			}
+			ast.Inspect(fn.Body, func(n ast.Node) bool {
+				switch x := n.(type) {
+				case *ast.CallExpr:
+					if sel, ok := x.Fun.(*ast.SelectorExpr); ok && cowCallees[sel.Sel.Name] {
+						args := make([]string, len(x.Args))
+						for i, a := range x.Args {
+							args[i] = show(a)
+						}
+						ev = append(ev, fmt.Sprintf("%s: %s.%s(%s)", name, show(sel.X), sel.Sel.Name, strings.Join(args, ", ")))
+					}
+				case *ast.AssignStmt:
+					for i, l := range x.Lhs {
+						ls := show(l)
+						if strings.Contains(ls, "needCopyOnWrite") || strings.HasSuffix(ls, ".copyOnWrite") {
+							r := "?"
+							if i < len(x.Rhs) {
+								r = show(x.Rhs[i])
+							} else if len(x.Rhs) == 1 {
+								r = show(x.Rhs[0])
+							}
+							ev = append(ev, fmt.Sprintf("%s: %s %s %s", name, ls, x.Tok, r))
+						}
+					}
 				}
 				return true
 			})
